@@ -81,6 +81,17 @@ MayWiden(c) ==
   IN /\ Len(lv.fields) >= 2 => othersNarrow
      /\ someWide => (Len(lv.fields) < 1 /\ lv.style # "named")
 
+\* A configuration inside the bounded instance that the per-trait specification says the macro must REFUSE
+\* (ambiguous / missing designation, clashing ranks, nothing to print, ...): emitted as a NEG line; the harness
+\* renders it like any other configuration and expects a diagnostic (C13).
+SealBad(BoundOK(_), SemOK(_)) ==
+  /\ phase = "build"
+  /\ WellFormed(cfg)
+  /\ BoundOK(cfg) /\ ~SemOK(cfg)
+  /\ phase' = "refused"
+  /\ UNCHANGED cfg
+  /\ PrintT(<<"NEG", ToJson(cfg)>>)
+
 BuildNext ==
   \/ \E k \in KindSet : \E o \in TypeOptSet(k) : Start(k, o)
   \/ \E vo \in VarOptSet(cfg) : AddVariant(vo)
